@@ -221,6 +221,7 @@ def session(arg):
         tty.setraw = setraw
         PS.os = OsProxy(log, lambda: p.child_fd, osl)
         th_u.start()
+        log0 = {k: len(v.getvalue()) for k, v in logs.items()}
         esc = case.get('esc', chr(29))
         t0 = time.time()
         done = {}
@@ -241,6 +242,11 @@ def session(arg):
         except Exception as e:      # noqa
             out['ret'] = 'EXC:%s %r' % (type(e).__name__, e)
         done['ret'] = True
+        # what interact() itself logged: from the log length at its start to the length at its return
+        out['logs'] = {}
+        for k, v in logs.items():
+            val = v.getvalue()[log0[k]:]
+            out['logs'][k] = val if isinstance(val, str) else val.decode('latin-1')
         out['forced'] = bool(done.get('forced'))
         out['wall'] = round(time.time() - t0, 2)
         PS.os = os
@@ -266,7 +272,6 @@ def session(arg):
         out['display'] = bytes(display).hex()
         out['typed'] = bytes(typed).hex()
         out['log'] = log
-        out['logs'] = {k: (v.getvalue() if isinstance(v.getvalue(), str) else v.getvalue().decode('latin-1')) for k, v in logs.items()}
         return out
     finally:
         sys.stdout = saved_stdout
@@ -336,6 +341,10 @@ def oracle(case, out):
         want_all = want_out + (apply_f(fout, tail) if fout in (None, 'up') else b'')
         if not display.startswith(pend):
             return ('interact/pending-not-flushed', 'pending text %r, the display starts with %r' % (pend[:40], display[:40]))
+        if ended:
+            # after the escape the terminal is back in its original (echoing) mode: keystrokes still in flight are echoed by the
+            # terminal itself, which is not output of interact()
+            display = display[:len(want_all)]
         if display != want_all:
             k = next((i for i, (a, b) in enumerate(zip(display, want_all)) if a != b), min(len(display), len(want_all)))
             kind = 'interact/output-lost-at-exit' if (burst and display == want_all[:len(display)]) else 'interact/output-not-transparent'
@@ -381,7 +390,7 @@ def oracle(case, out):
         encg = case.get('encoding')
         want_lr = shown_after.decode(encg, 'replace') if encg else shown_after.decode('latin-1')
         want_ls = got.decode(encg, 'replace') if encg else got.decode('latin-1')
-        if shown_after and lr[-len(want_lr):] != want_lr and (not encg or encg == 'latin-1'):
+        if shown_after and lr != want_lr and (not encg or encg == 'latin-1'):
             return ('interact/logfile_read', 'logfile_read ends with %r, the user saw %r' % (lr[-30:], want_lr[-30:]))
         if ls != want_ls:
             return ('interact/logfile_send', 'logfile_send %r, the child received %r' % (ls[:40], want_ls[:40]))
